@@ -34,6 +34,8 @@ type Nested struct {
 	Inherit bool
 	// Ignore is set when a rule set has a second rule without actions.
 	Ignore bool
+	// Focus is set in lookahead-focus mode (see GenNested).
+	Focus bool
 	// Patterns lists, for every rule and for the ligature, a glyph sequence
 	// its pattern (backtrack, input, lookahead) matches.
 	Patterns [][]glyph.ID
@@ -71,13 +73,20 @@ func GenNested(t *rapid.T, opt NestedOptions) *Nested {
 	}
 	res := &Nested{Gdef: gd, Alphabet: alpha}
 	nCtx := rapid.IntRange(2, 3).Draw(t, "nContexts")
+	// lookahead focus (a fifth of the cases): the innermost context is a
+	// chaining context with further input glyphs and a lookahead, the context
+	// before it inherits exactly its input and calls it at the first glyph -
+	// the callee's lookahead then lies just behind the caller's match window
+	focus := !opt.Wild && rapid.IntRange(0, 4).Draw(t, "lookaheadFocus") == 0
 	res.NumCtx = nCtx
+	res.Focus = focus
 	const nLeaf = 3
 	total := nCtx + nLeaf
-	res.Coherent = rapid.IntRange(0, 3).Draw(t, "coherent") != 0
+	res.Coherent = rapid.IntRange(0, 3).Draw(t, "coherent") != 0 || focus
 	ll := make(gtab.LookupList, total)
 	firstOf := make([]glyph.ID, total)
 	patOf := make([][]glyph.ID, total) // first glyph and further input glyphs
+	aheadOf := make([]int, total)      // number of lookahead glyphs (chaining contexts)
 
 	// leaves: an expansion, a single substitution, a ligature
 	expFrom := g("expFrom")
@@ -135,12 +144,16 @@ func GenNested(t *rapid.T, opt NestedOptions) *Nested {
 		}
 		first := g("ctxFirst")
 		nIn := rapid.SampledFrom([]int{0, 1, 1, 2, 2, 3}).Draw(t, "ctxInputLen")
+		if focus && i == nCtx-1 && nIn == 0 {
+			nIn = 1
+		}
 		input := make([]glyph.ID, nIn)
 		for k := range input {
 			input[k] = gm("ctxInput")
 		}
 		inherit := -1
-		if res.Coherent && rapid.IntRange(0, 2).Draw(t, "inheritPattern") != 0 {
+		focusCaller := focus && i == nCtx-2
+		if focusCaller || (res.Coherent && rapid.IntRange(0, 2).Draw(t, "inheritPattern") != 0) {
 			// the input sequence is the pattern of a later lookup, with marks
 			// drawn into the gaps and possibly a tail: whether the callee
 			// matches inside the caller's window is then a question of the
@@ -148,8 +161,16 @@ func GenNested(t *rapid.T, opt NestedOptions) *Nested {
 			cand := []int{total - 1} // the ligature, and any later lookup
 			for j := i + 1; j < total; j++ {
 				cand = append(cand, j)
+				if aheadOf[j] > 0 && len(patOf[j]) > 1 {
+					// a chaining context whose lookahead will lie behind the
+					// window of a caller that inherits its input: preferred
+					cand = append(cand, j, j)
+				}
 			}
 			inherit = rapid.SampledFrom(cand).Draw(t, "inheritFrom")
+			if focusCaller {
+				inherit = nCtx - 1
+			}
 			var seq []glyph.ID
 			for k, x := range patOf[inherit] {
 				if k > 0 && rapid.IntRange(0, 2).Draw(t, "inheritGap") == 0 {
@@ -161,13 +182,16 @@ func GenNested(t *rapid.T, opt NestedOptions) *Nested {
 			// input: what the callee takes of them lies between (or behind)
 			// the caller's input glyphs
 			seq = slices.DeleteFunc(seq, func(x glyph.ID) bool { return !kept(x) })
-			for len(seq) < 5 && rapid.IntRange(0, 2).Draw(t, "inheritTail") == 0 {
+			// (the lookahead of an inherited chaining context lies behind the
+			// caller's window unless a tail covers it: mostly no tail then)
+			exact := aheadOf[inherit] > 0 && (focusCaller || rapid.IntRange(0, 3).Draw(t, "inheritExactWindow") != 0)
+			for !exact && len(seq) < 5 && rapid.IntRange(0, 2).Draw(t, "inheritTail") == 0 {
 				seq = append(seq, gm("inheritTailGlyph"))
 			}
 			if len(seq) > 5 {
 				seq = seq[:5]
 			}
-			if len(seq) > 1 && rapid.IntRange(0, 3).Draw(t, "inheritPrefix") == 0 {
+			if !exact && len(seq) > 1 && rapid.IntRange(0, 3).Draw(t, "inheritPrefix") == 0 {
 				// only a prefix: the callee reaches beyond the caller's input
 				seq = seq[:rapid.IntRange(1, len(seq)-1).Draw(t, "inheritPrefixLen")]
 			}
@@ -207,7 +231,7 @@ func GenNested(t *rapid.T, opt NestedOptions) *Nested {
 			}
 			idx := rapid.IntRange(0, hiSeq).Draw(t, "seqIdx")
 			li := -1
-			if k == 0 && inherit >= 0 && rapid.IntRange(0, 3).Draw(t, "callInherited") != 0 {
+			if k == 0 && inherit >= 0 && (focusCaller || rapid.IntRange(0, 3).Draw(t, "callInherited") != 0) {
 				idx, li = 0, inherit
 			}
 			if gl, ok := at(idx); ok && res.Coherent && rapid.IntRange(0, 3).Draw(t, "fitting") != 0 {
@@ -244,12 +268,19 @@ func GenNested(t *rapid.T, opt NestedOptions) *Nested {
 		}
 		var back, ahead []glyph.ID
 		format := rapid.SampledFrom([]int{0, 1, 2, 3, 3, 4, 4, 5, 5, 5}).Draw(t, "ctxFormat")
+		focusCallee := focus && i == nCtx-1
+		if focusCallee {
+			format = rapid.SampledFrom([]int{3, 4, 5}).Draw(t, "ctxFormatChained")
+		}
 		if format >= 3 {
 			for k := rapid.IntRange(0, 1).Draw(t, "nBacktrack"); k > 0; k-- {
 				back = append(back, g("backtrack"))
 			}
 			for k := rapid.IntRange(0, 2).Draw(t, "nLookahead"); k > 0; k-- {
 				ahead = append(ahead, g("lookahead"))
+			}
+			if focusCallee && len(ahead) == 0 {
+				ahead = append(ahead, g("lookaheadFocus"))
 			}
 		}
 		// an "ignore" rule: a second rule of the same rule set without
@@ -285,6 +316,7 @@ func GenNested(t *rapid.T, opt NestedOptions) *Nested {
 			res.Patterns = append(res.Patterns, append(append(append(append([]glyph.ID{}, ignBack...), first), ignIn...), ignAhead...))
 		}
 		res.Patterns = append(res.Patterns, append(append(append(append([]glyph.ID{}, back...), first), input...), ahead...))
+		aheadOf[i] = len(ahead)
 		switch format {
 		case 0:
 			rr := []*gtab.SeqRule{{Input: input, Actions: actions}}
